@@ -474,21 +474,26 @@ def check_fidelity(ctx, g, fluent, raw, ast, witness):
 
 
 def run_statement(ctx, g, dsl, sql, ast, index, rng, keep):
+    from vlib import core
+
     witness = {'ast': ast}
     try:
         x = g.build(ast)
         x_raw = g.build_raw(ast)
         x_new = g.build(ast, tables=g.make_catalog({**g.SCHEMA, **g.TWIN}))
+        # the clause methods of every query called in another (seeded) order: the same structure
+        x_perm = g.build(ast, order=core.subseed('c08-order', g.signature(ast)))
     except Exception as err:  # pylint: disable=broad-except
         ctx.count('unconstructible')  # construction is C07's subject (e.g. un-aliased == in a select list)
         del err
         return
-    ctx.count('objects_built', 3)
+    ctx.count('objects_built', 4)
     skeleton = g.skeleton(ast)
-    if not (check_fidelity(ctx, g, x, x_raw, ast, witness) and check_fidelity(ctx, g, x_new, x_raw, ast, witness)):
+    if not (check_fidelity(ctx, g, x, x_raw, ast, witness) and check_fidelity(ctx, g, x_new, x_raw, ast, witness)
+            and check_fidelity(ctx, g, x_perm, x_raw, ast, {**witness, 'route': 'permuted'})):
         return  # x is not the statement the AST describes: nothing below could be attributed correctly
     # ---- identical pairs
-    for route, other in (('raw', x_raw), ('fresh-catalog', x_new)):
+    for route, other in (('raw', x_raw), ('fresh-catalog', x_new), ('permuted', x_perm)):
         info = {**witness, 'pair': 'identical', 'route': route}
         ctx.shape((skeleton, 'identical', route))
         check_pair(ctx, g, 'source', x, other, True, ast, ast, f'identical-{route}', info, keep)
